@@ -850,6 +850,12 @@ keyword_start:
             }
         /* fall through */
         default:
+            if (isalnum(ctx->in->current[0]) || (ctx->in->current[0] == '_') || (ctx->in->current[0] == '-') ||
+                    (ctx->in->current[0] == '.')) {
+                /* an identifier that only starts with a keyword, it can still be the prefix of an extension instance */
+                prefix = 0;
+                goto extension;
+            }
             MOVE_INPUT(ctx, 1);
         /* fall through */
         case '\0':
